@@ -28,17 +28,13 @@ def main():
             cases.append(json.load(open(p)))
     groups = defaultdict(list)
     unassigned = defaultdict(list)
+    pre = {}
     for c in cases:
         case = c["case"]
         if pid == "C08":
             b = c["bucket"]
             op = case.get("canonical") or case.get("op") or (case.get("ops") or ["?"])[0]
-            key = b.split(":")[-1] if b.count(":") >= 2 else ""
-            region = f"op={op}" + (f";class={key}" if key in case.get("classes", []) else "")
-            if R.get(region)(case):
-                groups[(region, b)].append(c)
-            else:
-                unassigned[b].append(c)
+            pre.setdefault((op, b), []).append(c)
         elif pid == "C16":
             region = "entry:" + case.get("qualified_name", "?")
             groups[(region, None)].append(c)
@@ -50,6 +46,19 @@ def main():
                 unassigned[c["bucket"]].append(c)
             for h in hit:
                 groups[(h, None)].append(c)
+    # C08: narrow the region of each (op, bucket) group to the structural classes that ALL its recorded cases share (only classes that
+    # name a cause: zero-size, rank 0, dim=None, empty dim list, -1 entry, python scalar in a tensor position), so that a different
+    # failure of the same operator is still reported
+    STRONG = ["size0", "rank0", "dim_none", "dim_empty", "minus1", "scalar_for_tensor"]
+    for (op, b), lst in pre.items():
+        common = set.intersection(*[set(c["case"].get("classes", [])) for c in lst])
+        need = [k for k in STRONG if k in common]
+        region = f"op={op}" + (";class=" + ",".join(need) if need else "")
+        for c in lst:
+            if R.get(region)(c["case"]):
+                groups[(region, b)].append(c)
+            else:
+                unassigned[b].append(c)
     entries = []
     os.makedirs(os.path.join(HOME, "known", pid), exist_ok=True)
     for (region, b), lst in sorted(groups.items()):
@@ -60,7 +69,8 @@ def main():
         path = os.path.join("known", pid, name + ".json")
         json.dump({"property": pid, "bucket": first["bucket"], "detail": first["detail"], "case": first["case"]}, open(os.path.join(HOME, path), "w"), indent=1, default=str)
         entries.append({"id": f"KF-{pid}-{name}", "properties": [pid], "status": "known", "what": first["detail"][:240].replace("\n", " "),
-                        "bucket": "(" + "|".join(re.escape(x) for x in buckets) + ")", "region": region, "replay": path, "auto": pid})
+                        "bucket": ("(" + "|".join(re.escape(x) for x in buckets) + ")") if b is not None else
+                                  ("(" + "|".join(sorted({re.escape(x.split(":")[0]) for x in buckets})) + ")(:.*)?"), "region": region, "replay": path, "auto": pid})
     json.dump(entries, open(f"/tmp/auto_known_{pid}.json", "w"), indent=1)
     print(pid, len(entries), "entries;", sum(len(v) for v in unassigned.values()), "unassigned cases")
     for b, lst in unassigned.items():
